@@ -402,14 +402,16 @@ class ExecutableWithState(Generic[CallableType, ResultType]):
 
     def complete(self, result: ResultType) -> None:
         """Transition to COMPLETED state."""
-        self._status = BranchStatus.COMPLETED
+        # The status is published last: another thread that sees COMPLETED reads the result next.
         self._result = result
         self._is_result_set = True
+        self._status = BranchStatus.COMPLETED
 
     def fail(self, error: Exception) -> None:
         """Transition to FAILED state."""
-        self._status = BranchStatus.FAILED
+        # The status is published last: another thread that sees FAILED reads the error next.
         self._error = error
+        self._status = BranchStatus.FAILED
 
     def reset_to_pending(self) -> None:
         """Reset to PENDING state for resubmission."""
